@@ -1,1 +1,24 @@
 from props.dlde_rt import *
+
+def bounded_search(p):
+    """used only when the deductive side is undecided: readouts built directly and readouts delivered by the reader after noise (incl. over-long input) must answer is_valid /
+    expected_checksum / payload as the specification says for their octets"""
+    from props import dlde_rt as R
+    import random
+    bad = []; ev = 0
+    r = R.search_readouts({"seed": p.get("seed", 1)}, n=1500)
+    if r.get("violated"): bad.append(r.get("detail"))
+    rnd = random.Random(p.get("seed", 0))
+    if not bad:
+        for it in range(p.get("n", 150)):
+            noise = rnd.choice([b"", b"x\r\n", b"/ABC5\r\n" + b"y" * rnd.choice([10, 9000]) + b"\r\n", b"/ABC5\r\n" + b"1-0:1.8.0(1)\r\n" * 700])
+            ros = list(R.gen_readouts(rnd, rnd.randrange(1, 4))); s = noise + b"".join(ros)
+            size = rnd.choice([1, 7, 1000, len(s)]); rd = R.dlde.ModeDReader(); got = []
+            for i in range(0, len(s), size): got += rd.read(s[i:i + size])
+            for g in got:
+                ev += 1; b = R.check_readout(g.as_bytes)          # the same octets built directly
+                same = R.dlde.DataReadout(g.as_bytes)
+                if g.is_valid != same.is_valid: bad.append({"why": "a readout delivered by the reader and a readout built from the same octets disagree on is_valid", "octets": g.as_bytes.decode("latin1")[:80], "reader": g.is_valid, "direct": same.is_valid}); break
+                if b: bad.append({"readout": g.as_bytes.decode("latin1")[:80], "broken": b[:2]}); break
+            if bad: break
+    return {"name": "bounded search: readouts built directly and delivered by the reader", "bound": "1500 generated readouts; 150 noise + readout streams incl. over-long input x chunk sizes", "evaluations": ev + 1500, "distinct_nontrivial": ev, "violations": bad[:1]}
